@@ -51,6 +51,19 @@ macro_rules! plain { ($ctx:expr, $s:expr, $f:expr; $($t:ty),* $(,)?) => { $( ent
 macro_rules! small { ($ctx:expr, $s:expr, $f:expr; $($t:ty),* $(,)?) => { $( entry!($ctx, $s, $f, $t, zw=false, small=true, budget=24); )* } }
 macro_rules! zerow { ($ctx:expr, $s:expr, $f:expr; $($t:ty),* $(,)?) => { $( entry!($ctx, $s, $f, $t, zw=true, small=false, budget=24); )* } }
 
+
+/// Element type x container cross product: every interesting element kind under every container
+/// with its own decode path (bulk / item-wise / from_iter / in-place array / holder).
+macro_rules! cross { ($ctx:expr, $s:expr, $f:expr; $($e:ty),* $(,)?) => { $(
+	plain!($ctx, $s, $f; Vec<$e>, VecDeque<$e>, LinkedList<$e>, [$e; 3], Box<[$e; 2]>, Option<Vec<$e>>, (Vec<$e>, u8), Vec<Box<$e>>, Rc<$e>, [Arc<$e>; 2]);
+)* } }
+macro_rules! cross_zw { ($ctx:expr, $s:expr, $f:expr; $($e:ty),* $(,)?) => { $(
+	zerow!($ctx, $s, $f; Vec<$e>, VecDeque<$e>, LinkedList<$e>, [$e; 3], Box<[$e; 2]>, Option<Vec<$e>>, (Vec<$e>, u8));
+)* } }
+macro_rules! cross_ord { ($ctx:expr, $s:expr, $f:expr; $($e:ty),* $(,)?) => { $(
+	plain!($ctx, $s, $f; BinaryHeap<$e>, BTreeSet<$e>, BTreeMap<$e, u8>, BTreeMap<u8, $e>);
+)* } }
+
 #[path = "generated.rs"]
 pub mod generated;
 
@@ -119,6 +132,16 @@ pub fn run_all(ctx: &mut Ctx, stream: &str) {
 		Result<u8, u64>, Result<(), u8>, Result<(), [u8; 32]>, Option<Result<u8, (u16, u16)>>, Result<u64, u8>, [Result<bool, u32>; 2],
 		Option<(u8, u16)>, Result<u32, (u8, u8)>, [(u8, bool); 3], Range<(u8, u8)>, Box<[u16; 4]>, Arc<(u8, u64)>, Rc<(u8, u64)>,
 	);
+	if std::env::var("VERIF_NO_CROSS").is_err() {
+		cross!(ctx, stream, f;
+			u8, i8, u16, u32, i64, u128, f32, f64, bool, OptionBool, NonZeroU8, NonZeroU32, NonZeroI64, Compact<u32>, Compact<u128>,
+			Marker, TwinU32, TwinU8, String, Option<u8>, Option<bool>, [u8; 2], Box<u64>, Rc<u16>, TransCompact, TransTagged, Mixed,
+			(u8, u16), Duration, Vec<u8>, Result<u8, bool>);
+		cross_ord!(ctx, stream, f;
+			u8, i8, u16, u32, i64, u128, bool, NonZeroU8, NonZeroU32, Marker, String, Option<u8>, [u8; 2], Box<u64>, Rc<u16>, (u8, u16),
+			Vec<u8>, Duration);
+		cross_zw!(ctx, stream, f; (), Box<()>, AllSkipped, PhantomData<u8>, UnitStruct, [u8; 0], TransSkipPayload);
+	}
 	generated::run_generated(ctx, stream, f);
 	zerow!(ctx, stream, f; Vec<()>, VecDeque<()>, LinkedList<()>, Vec<UnitStruct>, Vec<PhantomData<u8>>, BTreeSet<()>,
 		Option<Vec<()>>, [(); 5], [UnitStruct; 3],
